@@ -29,7 +29,7 @@
    `Variant` selects a wrong Level I (sensitivity controls).                  *)
 EXTENDS Integers, Sequences, FiniteSets, TLC, Json, CSV, IOUtils
 
-CONSTANTS MaxDecl, MaxDepth, Variant, Emit
+CONSTANTS MaxDecl, MaxDepth, MaxOpen, Variant, Emit
    \* Variant: "ok" | "for-noleave" | "typedef-own-map"
 
 None == [k |-> "none", id |-> 0]
@@ -100,6 +100,7 @@ Open(kind, p) ==
   LET id == nd + 1
       decl == [k |-> "obj", id |-> id]
   IN /\ IF kind = "fn" THEN phase = "file" ELSE phase = "fn" /\ Depth < MaxDepth
+     /\ Cardinality({i \in DOMAIN hist : hist[i].e = "open"}) < MaxOpen      \* bounds the history
      /\ p => nd < MaxDecl
      /\ nd' = IF p THEN id ELSE nd
      /\ phase' = "fn"
